@@ -97,7 +97,10 @@ def flatten(o):
             "oshape_spec": c["oshape"], "adj_checked": o["adj"]["checked"], "adj_nbad": o["adj"]["nbad"],
             "lin_vjp": o["adj"]["lin_vjp"], "lin_jvp": o["adj"]["lin_jvp"],
             "vjp_primal_eq": v["primal_eq"], "jvp_primal_eq": j["primal_eq"], "box": o["primal"]["box"],
-            "intact": o["primal"]["intact"], "nest_eq": o["primal"]["nest_eq"]}
+            "intact": o["primal"]["intact"], "nest_eq": o["primal"]["nest_eq"],
+            "second_checked": bool(o.get("second", {}).get("checked")), "second_nbad": o.get("second", {}).get("nbad", 0),
+            "second_sym_bad": o.get("second", {}).get("sym_bad", 0), "second_num_bad": o.get("second", {}).get("num_bad", 0),
+            "second_box": any(v_ == "box" for v_ in o.get("second", {}).get("modes", {}).values())}
 
 
 def mirror(prop, r):
@@ -127,6 +130,15 @@ def mirror(prop, r):
                          (r["vjp_shape"], r["vjp_kind"], r["vjp_dtype"], r["in_shape"], r["in_kind"], r["in_dtype"]))
         if not r["jvp_raised"] and not (r["jvp_shape"] == r["out_shape"] and r["jvp_kind"] == r["out_kind"]):
             fails.append("JVP result has structure %s/%s, output has %s/%s" % (r["jvp_shape"], r["jvp_kind"], r["out_shape"], r["out_kind"]))
+    if prop == "C07" and r["second_checked"]:
+        if r["second_nbad"]:
+            fails.append("Hessian-vector products of different mode sequences disagree")
+        if r["second_sym_bad"]:
+            fails.append("Hessian not symmetric")
+        if r["second_num_bad"]:
+            fails.append("second derivative differs from the derivative of the first-order gradient")
+        if r["second_box"]:
+            fails.append("a tracer object was handed back by a second-order computation")
     if prop == "C06":
         if not r["vjp_raised"] and not r["vjp_primal_eq"]:
             fails.append("primal under reverse mode differs from plain NumPy")
@@ -167,6 +179,8 @@ def run_rules(pid, tier, seed, fams, per_family_quick, level_rule, assumptions, 
         cfgs += chosen
     for i, c in enumerate(cfgs):
         c["id"] = i + 1
+        if pid == "C07":
+            c["second"] = True
     obs, files = vlib.parallel_replay("rule_replay.py", cfgs, nproc=15, tag="rules")
     harness_errors = [o for o in obs if o["status"].startswith("harness_error")]
     if harness_errors:
@@ -198,7 +212,7 @@ def run_rules(pid, tier, seed, fams, per_family_quick, level_rule, assumptions, 
             o = by_id[r["id"]]
             fc = facets(o["cfg"])
             fc["fails"] = fails
-            new = verdict.violation(fc, {"reason": fails, "cfg": o["cfg"], "vjp": o["vjp"], "jvp": o["jvp"], "adj": o["adj"],
+            new = verdict.violation(fc, {"reason": fails, "cfg": o["cfg"], "second": o.get("second"), "vjp": o["vjp"], "jvp": o["jvp"], "adj": o["adj"],
                                          "primal": o["primal"], "in": o["in"], "out": o["out"]})
             nviol += 1
     if verdict.violations or verdict.known_hits:
@@ -269,6 +283,14 @@ def c05(tier, seed, replay=None):
 
 def c06(tier, seed, replay=None):
     return run_rules("C06", tier, seed, FAMILIES, 300, RULE, ASSUME)
+
+
+SECOND_FAMILIES = {k: v for k, v in FAMILIES.items() if k not in ("kink",)}
+SECOND_FAMILIES["index"] = (2, 3, ["rr"])
+
+
+def c07_second(tier, seed):
+    return run_rules("C07", tier, seed, SECOND_FAMILIES, 120, RULE, ASSUME, write=False)
 
 
 INDEX_FAMILY = {"index": (2, 3, ["rr"])}
